@@ -75,6 +75,7 @@ class Headers:
                 flags = 'r+b' if os.path.exists(self.path) else 'w+b'
                 with open(self.path, flags) as header_file:
                     header_file.write(self.io.getbuffer())
+                    header_file.truncate()
             await asyncio.get_event_loop().run_in_executor(None, _close)
             self.io.close()
             self.io = None
